@@ -164,6 +164,9 @@ func runC01(ctx *Ctx) error {
 		if i%5 == 0 {
 			maxMsgs = 12
 		}
+		if i%20 == 11 {
+			maxMsgs = 26 // more than a dozen pending messages (several blocks; stable size order within a precedence class)
+		}
 		sc := r.Scenario(maxMsgs)
 		if i%10 == 7 {
 			// a one-proposal block whose lines sum to a chosen residue modulo 256: the block
